@@ -13,18 +13,31 @@ LEVEL_NOTE = ("Coq kernel; extraction; the dotReader state machine is transcribe
 DESIGN_REF = "DESIGN.md §4 C02"
 RULE = ("bodies from a grammar of hostile lines (leading/lone dots, NUL, 8-bit, bare CR at start/middle/end, empty lines, random bytes, "
         "repeated runs up to 200 bytes), long-line cases of 4095..300000 bytes, raw wire encodings with bare-LF line ends and LF-only "
-        "terminators; distinct = distinct input line; non-trivial = the message was stored and has a body beyond the trace headers")
+        "terminators; multi: one transaction with 2-4 recipients (distinct mailboxes, the same mailbox twice), EVERY stored copy read back "
+        "through all four interfaces; distinct = distinct input line; non-trivial = the message was stored and has a body beyond the trace headers")
 TRUSTED = ["net/textproto dotReader transcribed by hand into Model/Dot.v", "httptest around the real router for REST and web-UI reads"]
 ASSUMPTIONS = ["the header block of the payload decides acceptance (451 otherwise): the driver reports enmime's verdict as an oracle"]
 NOT_PROVED = []
 
 
 def nontrivial(kind, ins, outs):
+    if kind == "multi":
+        return len(outs) >= 3 and outs[2].startswith("1:") and outs[1] != "-"
     return len(outs) >= 9 and outs[8].startswith("1:") and ins[1] != "-"
 
 
 def shrink_candidates(inp):
     parts = inp.split(" ")
+    if parts[0] == "multi":
+        rc = parts[2].split(",")
+        for i in range(len(rc)):
+            if len(rc) > 1:
+                yield " ".join([parts[0], parts[1], ",".join(rc[:i] + rc[i + 1:]), parts[3]])
+        if parts[3] != "-":
+            ls = parts[3].split(",")
+            for i in range(len(ls)):
+                yield " ".join([parts[0], parts[1], parts[2], ",".join(ls[:i] + ls[i + 1:]) or "-"])
+        return
     if parts[0] == "lines" and parts[2] != "-":
         ls = parts[2].split(",")
         for i in range(len(ls)):
